@@ -532,6 +532,8 @@ def main():
         specs += GR.C10_EXTRA
     if a.prop == "C11":
         specs += GR.C11_EXTRA
+    if a.prop == "C02":
+        specs += GR.C02_EXTRA
     jobs = [("grammar", spec) for spec in specs]
     if a.prop in ("C01", "C02", "C11"):
         jobs += [("grammar", spec) for spec in GR.POSTPONED]
